@@ -482,6 +482,17 @@ func predReq(c reqCase, o *evid.Obs) error {
 		}
 	}
 
+	if err := judgeAfter(st, o, c, fmt.Sprintf("%s (answered %d)", describe(c), resp.Status)); err != nil {
+		return err
+	}
+	tainted = false
+	return nil
+}
+
+// judgeAfter is the part of the oracle that looks at what a request (or a group of
+// concurrent requests) left behind: push-goroutine and handler panics, malformed blocks,
+// the probe push, unanswered promises, leftover goroutines. what describes the request(s).
+func judgeAfter(st *stand, o *evid.Obs, c reqCase, what string) error {
 	// the probe: a well-formed push of another client
 	prq, exp, pkind := buildProbe(c)
 	presp := send(st.addr, prq, respDeadline)
@@ -490,11 +501,11 @@ func predReq(c reqCase, o *evid.Obs) error {
 
 	if p := st.pushPanics(); len(p) > 0 {
 		o.Tag("outcome:push-panic")
-		return fmt.Errorf("panic inside IInsertServiceV2.Request, which qryn calls from the un-recovered goroutine of doPush (writer/controller/builder.go): in production the process exits and the batch keeps the columns appended so far. Request: %s (answered %d)\npanic: %s", describe(c), resp.Status, p[0])
+		return fmt.Errorf("panic inside IInsertServiceV2.Request, which qryn calls from the un-recovered goroutine of doPush (writer/controller/builder.go): in production the process exits and the batch keeps the columns appended so far. Request: %s\npanic: %s", what, p[0])
 	}
 	if lg := st.log(); strings.Contains(lg, "panic serving") {
 		o.Tag("outcome:handler-panic")
-		return fmt.Errorf("the handler goroutine panicked after status %d was sent: %s\n%s", resp.Status, describe(c), trimTo(lg, 3500))
+		return fmt.Errorf("the handler goroutine panicked: %s\n%s", what, trimTo(lg, 3500))
 	}
 
 	// every block must be rectangular and well-formed
@@ -503,35 +514,34 @@ func predReq(c reqCase, o *evid.Obs) error {
 			continue
 		}
 		o.Tag("outcome:malformed-block")
-		return fmt.Errorf("after %s (answered %d) the insert service sent a malformed INSERT block to %s: %s %s (all rows of the block, other clients' included, are lost)",
-			describe(c), resp.Status, call.Table, call.RectErr, call.ShapeErr)
+		return fmt.Errorf("after %s the insert service sent a malformed INSERT block to %s: %s %s (all rows of the block, other clients' included, are lost)",
+			what, call.Table, call.RectErr, call.ShapeErr)
 	}
 
 	if presp.Err != nil {
 		if presp.Timeout {
 			st.wedged = true
-			return fmt.Errorf("after %s (answered %d) a well-formed %s push got no response within %v\ngoroutines:\n%s", describe(c), resp.Status, pkind, respDeadline, stacksOf(st.extra(), 4))
+			return fmt.Errorf("after %s a well-formed %s push got no response within %v\ngoroutines:\n%s", what, pkind, respDeadline, stacksOf(st.extra(), 4))
 		}
-		return fmt.Errorf("after %s (answered %d) a well-formed %s push got no HTTP response: %v\n%s", describe(c), resp.Status, pkind, presp.Err, trimTo(st.log(), 2000))
+		return fmt.Errorf("after %s a well-formed %s push got no HTTP response: %v\n%s", what, pkind, presp.Err, trimTo(st.log(), 2000))
 	}
 	if presp.Status < 200 || presp.Status > 299 {
-		return fmt.Errorf("after %s (answered %d) a well-formed %s push was answered %d %s", describe(c), resp.Status, pkind, presp.Status, trimTo(presp.Body, 300))
+		return fmt.Errorf("after %s a well-formed %s push was answered %d %s", what, pkind, presp.Status, trimTo(presp.Body, 300))
 	}
 	if err := checkProbeRows(st, exp); err != nil {
-		return fmt.Errorf("after %s (answered %d): %s probe: %w", describe(c), resp.Status, pkind, err)
+		return fmt.Errorf("after %s: %s probe: %w", what, pkind, err)
 	}
 
 	if !answered {
 		s, a := st.h.Rec.Counts()
 		st.wedged = true
-		return fmt.Errorf("after %s (answered %d): %d of %d requests to the insert services were never answered within %v\n%s", describe(c), resp.Status, s-a, s, settleBound, stacksOf(st.extra(), 4))
+		return fmt.Errorf("after %s: %d of %d requests to the insert services were never answered within %v\n%s", what, s-a, s, settleBound, stacksOf(st.extra(), 4))
 	}
 	if left := st.settle(settleBound); len(left) > 0 {
 		o.Tag("outcome:goroutine-leak")
 		st.wedged = true
-		return fmt.Errorf("%d goroutine(s) with qryn frames still alive %v after %s was answered %d:\n%s", len(left), settleBound, describe(c), resp.Status, stacksOf(left, 4))
+		return fmt.Errorf("%d goroutine(s) with qryn frames still alive %v after %s:\n%s", len(left), settleBound, what, stacksOf(left, 4))
 	}
-	tainted = false
 	return nil
 }
 
